@@ -1258,6 +1258,20 @@ def supervisor_runs(res, exe, wd, tier, replay_case=None):
 FL_UNIVERSE = SV_UNIVERSE + [("k2", "Kbd Two", "/devices/pci0000:00/usb1/1-5/input/input10", "120013", SV_FULL, 5)]
 
 
+def fl_record(exe, d, cases):
+    """runs `tmv fleet` on the cases inside a mount namespace of its own; returns (process, trace path)"""
+    import subprocess
+    devs, always = sv_namespace(d, FL_UNIVERSE)
+    cp = os.path.join(d, "cases.ndjson")
+    write_ndjson(cp, [dict(c, devs=devs, always=always, excludes=["Excl*"], devices_file=os.path.join(d, "devices"),
+                           always_nodes=["/dev/input/event%d" % u[5] for u in FL_UNIVERSE if not u[0].startswith("k")]) for c in cases])
+    tp = os.path.join(d, "trace.ndjson")
+    setup = "mount --bind %s/devices /proc/bus/input/devices && mount --bind %s/sys /sys/devices && mount -t tmpfs tmpfs /dev && mkdir -p /dev/input && " % (d, d)
+    with open(tp, "w") as out:
+        p = subprocess.Popen(["unshare", "-m", "sh", "-c", setup + "exec %s fleet %s" % (exe, cp)], stdout=out, stderr=subprocess.PIPE)
+    return p, tp
+
+
 def fleet_runs(res, exe, wd, tier, replay_case=None):
     """`remap --all-keyboards` (do_remapping_loop_all_devices) and `remap --dev-file ... --only-if-keyboard` (do_remapping_loop_multiple_devices ->
     filter_devices_verbose), both down to do_remapping_loop_these_devices: the real functions in a mount namespace with the device nodes scripted
@@ -1319,15 +1333,7 @@ def fleet_runs(res, exe, wd, tier, replay_case=None):
     nchunks = max(1, min(PROCS, len(cases) // 20 or 1))
     procs = []
     for i in range(nchunks):
-        d = os.path.join(fd, "ns%d" % i)
-        devs, always = sv_namespace(d, FL_UNIVERSE)
-        cp = os.path.join(d, "cases.ndjson")
-        write_ndjson(cp, [dict(c, devs=devs, always=always, excludes=["Excl*"], devices_file=os.path.join(d, "devices"),
-                               always_nodes=["/dev/input/event%d" % u[5] for u in FL_UNIVERSE if not u[0].startswith("k")]) for c in cases[i::nchunks]])
-        tp = os.path.join(d, "trace.ndjson")
-        setup = "mount --bind %s/devices /proc/bus/input/devices && mount --bind %s/sys /sys/devices && mount -t tmpfs tmpfs /dev && mkdir -p /dev/input && " % (d, d)
-        with open(tp, "w") as out:
-            procs.append((subprocess.Popen(["unshare", "-m", "sh", "-c", setup + "exec %s fleet %s" % (exe, cp)], stdout=out, stderr=subprocess.PIPE), tp))
+        procs.append(fl_record(exe, os.path.join(fd, "ns%d" % i), cases[i::nchunks]))
     traces = []
     for p, tp in procs:
         try:
